@@ -48,8 +48,10 @@ def heat(dgm1, dgm2, sigma=0.4):
         heat kernel distance between dgm1 and dgm2
 
     """
-    return np.sqrt(
+    dist2 = (
         evalHeatKernel(dgm1, dgm1, sigma)
         + evalHeatKernel(dgm2, dgm2, sigma)
         - 2 * evalHeatKernel(dgm1, dgm2, sigma)
     )
+    # rounding can leave a tiny negative value when the diagrams (nearly) coincide
+    return np.sqrt(max(dist2, 0.0))
